@@ -209,6 +209,12 @@ func C09(c *Ctx) {
 			}
 		}
 	}
+	for i, g := range gs {
+		if i%4 == 2 && len(entries[i]) > 0 {
+			// the first rule named explicitly, and a name given twice
+			entries[i] = append([]string{g.Rules[0].Name}, append(entries[i], entries[i][0])...)
+		}
+	}
 	cfg := &DiffConfig{
 		Grammars: gs,
 		VarFor: func(gi int, g *gast.Grammar) [][]string {
